@@ -49,6 +49,14 @@ Theorem C02_best_value_slot_order : forall n ws ws',
   (5 <= n)%nat -> HandN n ws -> Permutation ws ws' -> best_value5 ws = best_value5 ws'.
 Proof. exact best_value5_perm. Qed.
 
+(* the five cards REPORTED with the value are a best hand by the rules: five distinct cards of the input whose own
+   rule-based value is the value returned, and no five distinct cards of the input (any order) do better *)
+Theorem C02_reported_hand : forall chk n ws v h,
+  (n = 6 \/ n = 7)%nat -> HandN n ws -> hrvh chk ws = Ok (v, h) ->
+  Hand5 h /\ incl h ws /\ v = best_value5 ws /\ value5 h = best_value5 ws /\
+  forall s, length s = 5%nat -> NoDup s -> incl s ws -> value5 h <= value5 s.
+Proof. exact reported_hand_spec. Qed.
+
 (* non-vacuity: As Ks Qs Js Ts 2c 3d (a seven containing a royal flush) and a six *)
 Example C02_example :
   hand_rank_value false [layout 0 0; layout 12 3; layout 11 3; layout 1 1; layout 10 3; layout 9 3; layout 8 3] = Ok 1 /\
@@ -68,5 +76,6 @@ Print Assumptions C02_lower.
 Print Assumptions C02_attained.
 Print Assumptions C02_value5_is_rank.
 Print Assumptions C02_slot_order.
+Print Assumptions C02_reported_hand.
 Print Assumptions C02_best_value_slot_order.
 Print Assumptions C02_projection.
